@@ -332,6 +332,34 @@ type reqOpt struct {
 	remote    string
 	chunkRead int // >0: the body is delivered in reads of at most this many bytes (as from a network connection)
 	truncate  bool // the transfer breaks off after half of the body (the reader returns io.ErrUnexpectedEOF)
+	midAt     int    // with midBody: the body is delivered as body[:midAt], then midBody runs (once, on the handler's goroutine, inside Read), then the rest
+	midBody   func() // what another client does while this request's body is on its way
+}
+
+// hookReader delivers b[:at] in one Read, calls fn inside the next Read, then delivers the rest.
+type hookReader struct {
+	b    []byte
+	at   int
+	pos  int
+	fn   func()
+	done bool
+}
+
+func (h *hookReader) Read(p []byte) (int, error) {
+	if h.pos >= h.at && !h.done {
+		h.done = true
+		h.fn()
+	}
+	if h.pos >= len(h.b) {
+		return 0, io.EOF
+	}
+	end := len(h.b)
+	if h.pos < h.at {
+		end = h.at
+	}
+	n := copy(p, h.b[h.pos:end])
+	h.pos += n
+	return n, nil
 }
 
 // brokenReader delivers its bytes and then fails the way net/http does when a client stops sending.
@@ -371,6 +399,9 @@ func doReq(h http.Handler, method, url string, body []byte, o *reqOpt) (r resp) 
 	}
 	if o != nil && o.truncate && len(body) > 0 {
 		rdr = &brokenReader{r: bytes.NewReader(body[:len(body)/2])}
+	}
+	if o != nil && o.midBody != nil && body != nil {
+		rdr = &hookReader{b: body, at: o.midAt, fn: o.midBody}
 	}
 	var req *http.Request
 	func() {
